@@ -353,6 +353,10 @@ def run(sc, tape):
                             headers['If-Modified-Since'] = prev[u]['lm']
                             plm = parse_httpdate(prev[u]['lm'])
                             expect304 = False if plm is not None and plm < lm_ts else None
+                            if plm is not None and plm == lm_ts and sc['backend'].startswith('file'):
+                                # rewritten within the same second: a backend with sub-second timestamps can (and the
+                                # code does) tell the current tile from the client's older copy
+                                expect304 = False
                             if expect304 is None and plm is not None and plm > lm_ts:
                                 raise Bad('last-modified-went-backwards', '%s: the tile was rewritten after a copy with Last-Modified '
                                           '%r was served, but now reports the older Last-Modified %r' % (what, prev[u]['lm'], cur['lm']))
